@@ -2,6 +2,9 @@ package main
 
 import (
 	"fmt"
+	"io"
+	"log"
+	"log/slog"
 	"math"
 	"reflect"
 	"strings"
@@ -138,18 +141,98 @@ func contexts(d bleDecoder, rng *Rng, extra int) [][]byte {
 
 // specMode: the suite's lines are answered by the layout specification (BS) instead of the translated code (BD)
 var specMode bool
+var bleMut string // appended to every operation line (a process-wide setting under which the pass runs)
 
 func emitBle(s *Sink, d bleDecoder, tag string, inp, spare []byte) string {
 	out := decodeReal(d, inp, spare)
 	if specMode {
-		s.Line(tag+"-spec", fmt.Sprintf("BS %s %s", d.name, hexOrDash(inp)), out)
+		s.Line(tag+"-spec", fmt.Sprintf("BS %s %s", d.name, hexOrDash(inp))+bleMut, out)
 	} else {
-		s.Line(tag, fmt.Sprintf("BD %s %s %s", d.name, hexOrDash(inp), hexOrDash(spare)), out)
+		s.Line(tag, fmt.Sprintf("BD %s %s %s", d.name, hexOrDash(inp), hexOrDash(spare))+bleMut, out)
 	}
 	return out
 }
 
+// verboseProcess: the process-wide logging defaults an application sets when it is started with -v: the default slog logger
+// at debug level, the standard logger with all flags (both writing to nowhere). A decoder is a pure function of its input under
+// any such setting.
+func verboseProcess(on bool) {
+	if on {
+		slog.SetDefault(slog.New(slog.NewTextHandler(io.Discard, &slog.HandlerOptions{Level: slog.LevelDebug, AddSource: true})))
+		log.SetOutput(io.Discard)
+		log.SetFlags(log.LstdFlags | log.Lshortfile | log.Lmicroseconds)
+		bleMut = " mut:process-logs-at-debug-level"
+	} else {
+		slog.SetDefault(slog.New(slog.NewTextHandler(io.Discard, &slog.HandlerOptions{Level: slog.LevelError})))
+		bleMut = ""
+	}
+}
+
+// lengthsUnderVerboseLogging: every decoder on every length 0..40 x capacities, exact-length records included, with the
+// process logging at debug level
+func lengthsUnderVerboseLogging(rng *Rng, s *Sink) {
+	verboseProcess(true)
+	defer verboseProcess(false)
+	for _, d := range bleDecoders() {
+		for l := 0; l <= 40; l++ {
+			for ci := 0; ci < 2; ci++ {
+				inp := rng.Bytes(l)
+				if ci == 1 {
+					for i := range inp {
+						inp[i] = 0
+					}
+				}
+				for _, f := range d.fields {
+					if f.enum && f.start+f.width <= 8*l {
+						setBits(inp, f.start, f.width, uint64(validEnumByte[l%len(validEnumByte)]))
+					}
+				}
+				for _, spare := range [][]byte{nil, {0xA5}, bytesOf(0xA5, 5), bytesOf(0xA5, 64)} {
+					out := emitBle(s, d, "verbose-process", inp, spare)
+					if out == "PANIC" {
+						s.Violate(fmt.Sprintf("BD %s %s %s%s", d.name, hexOrDash(inp), hexOrDash(spare), bleMut), out, fmt.Sprintf("%s panics on a %d-byte input (capacity %d) when the process logs at debug level", d.name, l, l+len(spare)))
+					}
+					if want := (l < d.n); want != (out == "err:too-short") {
+						s.Violate(fmt.Sprintf("BD %s %s %s%s", d.name, hexOrDash(inp), hexOrDash(spare), bleMut), out, fmt.Sprintf("%s (record length %d) on %d bytes with the process logging at debug level: %s", d.name, d.n, l, out[:min(60, len(out))]))
+					}
+				}
+			}
+		}
+	}
+}
+
+func bytesOf(b byte, n int) []byte {
+	out := make([]byte, n)
+	for i := range out {
+		out[i] = b
+	}
+	return out
+}
+
+// declaredUnits: the unit every float field of every record struct declares (its `Unit:"..."` tag) - in spec mode one line per
+// field, answered by the specification's unit table (BleSpec.units): "converted to the unit the result declares"
+func declaredUnits(s *Sink) {
+	for _, d := range bleDecoders() {
+		v, _ := d.call(make([]byte, 64))
+		rt := reflect.TypeOf(v)
+		for i := 0; i < rt.NumField(); i++ {
+			f := rt.Field(i)
+			unit := "none"
+			if f.Type.Kind() == reflect.Float64 {
+				unit = f.Tag.Get("Unit")
+				if unit == "" {
+					unit = "undeclared"
+				}
+			}
+			s.Line("declared-unit", fmt.Sprintf("BU %s %s", d.name, f.Name), unit)
+		}
+	}
+}
+
 func suiteC07(rng *Rng, thorough bool, s *Sink) {
+	if specMode {
+		declaredUnits(s)
+	}
 	defer bleConcurrent(rng, thorough, s)
 	maxBits := 10
 	if thorough {
@@ -303,6 +386,7 @@ func bleConcurrent(rng *Rng, thorough bool, s *Sink) {
 
 func suiteC08(rng *Rng, thorough bool, s *Sink) {
 	defer bleConcurrent(rng, thorough, s)
+	defer lengthsUnderVerboseLogging(rng.Fork(), s)
 	// inputs far longer than any record: never "too short", never a panic, the record's fields as for the record alone
 	for _, d := range bleDecoders() {
 		for _, l := range []int{255, 256, 256 + d.n - 1, 257, 511, 512, 1024, 4096, 65536 + d.n - 1} {
